@@ -813,3 +813,68 @@ theorem c19_block_broadcast_default_pairs {α : Type} (xs : List α) (n : ℕ) :
   obtain ⟨p, hp, rfl⟩ := List.mem_map.mp hi
   exact ((c19_default_pairs xs.length n).2.1 p hp).1
 
+/-! ## numpy broadcasting of the argument arrays -/
+
+/-- the broadcasting rule: a common length exists iff all lengths other than 1 agree; it is then
+that length (1 if there is none), and every argument has length 1 or the common length -/
+theorem c19_bcastLen (lens : List ℕ) :
+    (∀ m, bcastLen lens = .ok m → ∀ l ∈ lens, l = 1 ∨ l = m) ∧
+    (bcastLen lens = .error .shape ↔ ∃ a ∈ lens, ∃ b ∈ lens, a ≠ 1 ∧ b ≠ 1 ∧ a ≠ b) := by
+  unfold bcastLen
+  have hmem : ∀ l, l ∈ lens.filter (· != 1) ↔ l ∈ lens ∧ l ≠ 1 := by
+    intro l; simp [List.mem_filter]
+  cases hf : lens.filter (· != 1) with
+  | nil =>
+    have hall : ∀ l ∈ lens, l = 1 := by
+      intro l hl
+      by_contra hne
+      have : l ∈ lens.filter (· != 1) := (hmem l).mpr ⟨hl, hne⟩
+      rw [hf] at this; cases this
+    refine ⟨fun m hm l hl => Or.inl (hall l hl), ⟨fun h => (by cases h), ?_⟩⟩
+    rintro ⟨a, ha, -, -, hne, -⟩
+    exact absurd (hall a ha) hne
+  | cons m rest =>
+    have hm : m ∈ lens ∧ m ≠ 1 := (hmem m).mp (by rw [hf]; simp)
+    by_cases hr : rest.all (· == m) = true
+    · have hall : ∀ l ∈ lens, l = 1 ∨ l = m := by
+        intro l hl
+        by_cases h1 : l = 1
+        · exact Or.inl h1
+        · have : l ∈ m :: rest := by rw [← hf]; exact (hmem l).mpr ⟨hl, h1⟩
+          rcases List.mem_cons.mp this with h | h
+          · exact Or.inr h
+          · have := (List.all_eq_true.mp hr) l h
+            exact Or.inr (by simpa using this)
+      simp only [hr, if_true]
+      refine ⟨fun m' hm' l hl => (by cases hm'; exact hall l hl), ⟨fun h => (by cases h), ?_⟩⟩
+      rintro ⟨a, ha, b, hb, ha1, hb1, hab⟩
+      rcases hall a ha with h | h
+      · exact absurd h ha1
+      · rcases hall b hb with h' | h'
+        · exact absurd h' hb1
+        · exact absurd (h.trans h'.symm) hab
+    · have hr' : rest.all (· == m) = false := by simpa using hr
+      simp only [hr']
+      refine ⟨fun m' hm' => (by cases hm'), ⟨fun _ => ?_, fun _ => rfl⟩⟩
+      have : ∃ b ∈ rest, b ≠ m := by
+        by_contra hc; push Not at hc
+        exact hr (List.all_eq_true.mpr fun x hx => by simpa using hc x hx)
+      obtain ⟨b, hb, hbm⟩ := this
+      have hb' : b ∈ lens ∧ b ≠ 1 := (hmem b).mp (by rw [hf]; exact List.mem_cons_of_mem _ hb)
+      exact ⟨m, hm.1, b, hb'.1, hm.2, hb'.2, fun h => hbm h.symm⟩
+
+/-- **`angular_separation` as one call** raises exactly when numpy cannot broadcast the four
+arrays, i.e. when two of them have different lengths other than 1 -/
+theorem c19_angSepCall_error (ra1 dec1 ra2 dec2 : List ℝ) (fl : Option ℝ) :
+    (∃ e, angSepCall ra1 dec1 ra2 dec2 fl = .error e) ↔
+      ∃ a ∈ [ra1.length, dec1.length, ra2.length, dec2.length],
+        ∃ b ∈ [ra1.length, dec1.length, ra2.length, dec2.length], a ≠ 1 ∧ b ≠ 1 ∧ a ≠ b := by
+  rw [← (c19_bcastLen _).2]
+  unfold angSepCall bcastRows
+  simp only [List.map_cons, List.map_nil]
+  cases h : bcastLen [ra1.length, dec1.length, ra2.length, dec2.length] with
+  | error e =>
+    cases e <;> simp_all [bcastLen]
+    all_goals (split at h <;> try split_ifs at h) <;> simp_all
+  | ok m => simp
+
